@@ -230,4 +230,6 @@ def run(src, tier, seed):
     r = res.rule('popped-partitions-invalidated', 'MainSolver::pop clears the partition bits of the popped assertions on every successful path while partitions are tracked (B is computed as the '
                  'complement of the A-mask, so a stale bit turns an A-local symbol into a shared one)', floor=1)
     C06.pop_invalidates(fx, res, r)
+    import idxrule
+    idxrule.index_rule(fx, res)
     return res
